@@ -19,7 +19,10 @@ def run(ctx):
     RK.lower_rules(ctx, "R11.k")
     RK.text_methods_use_chars(ctx, "R11.k")
     RK.normalize_assigns_together(ctx, "R11.h")
-    return info("Every language table is bound to its role by data-flow from the constant to the Lang::add_* call that "
+    from . import r_word as RW
+    RW.normalize_next_lengths(ctx, "R11.m")
+    return info("R11.m: Normalize::next looks up every prefix window[..len], len = window.len()..1, on every path that yields an item (no fast path past the multi-character patterns). "
+                "Every language table is bound to its role by data-flow from the constant to the Lang::add_* call that "
                 "consumes it and checked entry by entry against Python's unicodedata: composition entries are NFD pair -> NFC "
                 "letter (R11.a); every reducible letter with a two-code-point NFD is composable (R11.b); other-case forms are "
                 "reduced alike (R11.c); reduction targets contain no reducible letter (R11.d); keys fit the normalisation "
